@@ -191,7 +191,9 @@ func (e *cpEngine) evalLookup(fr *cpFrame, x *ssa.Lookup) cpVal {
 			var keys []string
 			allStr := true
 			for k, ent := range mo.O.M {
-				if _, isS := ent.K.(cpStr); !isS {
+				switch ent.K.(type) {
+				case cpStr, cpInt:
+				default:
 					allStr = false
 				}
 				keys = append(keys, k)
@@ -200,8 +202,13 @@ func (e *cpEngine) evalLookup(fr *cpFrame, x *ssa.Lookup) cpVal {
 				sort.Strings(keys)
 				for _, k := range keys {
 					ent := mo.O.M[k]
-					ks := ent.K.(cpStr)
-					cond := cpUnk{ID: "cmp:" + ku.ID + "==" + ks.V}
+					var cond cpUnk
+					var ks cpVal = ent.K
+					if s, isS := ent.K.(cpStr); isS {
+						cond = cpUnk{ID: "cmp:" + ku.ID + "==" + s.V}
+					} else {
+						cond = cpUnk{ID: fmt.Sprintf("cmp:%s==%d", ku.ID, ent.K.(cpInt).V)}
+					}
 					if e.trackAtoms {
 						if e.atomInfo == nil {
 							e.atomInfo = map[string]cpAtom{}
